@@ -90,7 +90,9 @@ EmitChecks(id, s, t, kind, role, mate, br, fk, txt, text) ==
     bracket_is_keyword  |-> IsBracket(br) => kind = "Keyword",
     role_known          |-> role \in {"leaf", "open", "close"},
     unmatched_reported  |-> (IsBracket(br) /\ role = "leaf") => Reported(s, t),
-    opener_opens        |-> (br \in Openers /\ role # "leaf") => (role = "open" /\ mate > id /\ fk = PairName(br)),
+    opener_opens        |-> (br \in Openers /\ role # "leaf") =>
+                               /\ role = "open" /\ mate > id /\ fk = PairName(br)
+                               /\ (Len(stack) > 0 => mate < Top.mate),       \* closes inside the enclosing pair
     closer_closes       |-> (br \in Closers /\ role # "leaf") =>
                                /\ role = "close" /\ Len(stack) > 0
                                /\ Top.id = mate /\ Top.mate = id            \* pops exactly its own opener: proper nesting
